@@ -98,11 +98,28 @@ def delta_of(name, stmts, ev):
     """Net change of local `name` along a statement list as a Term, or None if `name` is
     assigned something that is not `name +/- term`."""
     total = Term.const(0)
+    loc = {}  # other locals given a value earlier on this path, in terms of the values at the loop head
+
+    def _ev_loc(node):
+        if not loc:
+            return ev.ev(node)
+        e3 = Evaluator(env={**getattr(ev, "env", {}), **loc}, const_of=ev.const_of)
+        return e3.ev(node)
+
     for kind, st, lab in stmts:
         if kind not in ("stmt",):
             continue
+        if isinstance(st, ast.Assign) and len(st.targets) == 1 and isinstance(st.targets[0], ast.Name) and st.targets[0].id != name:
+            if total == Term.const(0):
+                try:
+                    loc[st.targets[0].id] = _ev_loc(st.value)
+                except Exception:
+                    loc.pop(st.targets[0].id, None)
+            else:
+                loc.pop(st.targets[0].id, None)  # would mention a stale value of the counter
+            continue
         if isinstance(st, ast.AugAssign) and isinstance(st.target, ast.Name) and st.target.id == name:
-            t = ev.ev(st.value)
+            t = _ev_loc(st.value)
             if isinstance(st.op, ast.Add):
                 total = total + t
             elif isinstance(st.op, ast.Sub):
@@ -122,6 +139,30 @@ def delta_of(name, stmts, ev):
                     if isinstance(sub, ast.Name) and sub.id == name:
                         return None
     return total
+
+
+def _min_step_positive(step, var, op, bterm, loop):
+    """step is c*min(a, b, ..) with c > 0, where every argument is positive inside the loop: the counter itself when the guard is
+    `var > k` (k >= 0) / `var >= k` (k >= 1), or a size attribute of the stream that the loop leaves alone (the same assumption the
+    `while remaining > self.sector_length` form rests on: a sector length is positive)"""
+    from ..core.terms import _split_top
+    if len(step.p) != 1:
+        return False
+    (mono, c), = step.p.items()
+    if c <= 0 or len(mono) != 1 or not (mono[0].startswith("min(") and mono[0].endswith(")")):
+        return False
+    strict = isinstance(op, (ast.Gt, ast.Lt))  # the caller established that the guard keeps var above the bound
+    guard_pos = bterm.is_const() and ((strict and bterm.value() >= 0) or (not strict and bterm.value() >= 1))
+    assigned = assigned_names(loop_stmts(loop))
+    for a in _split_top(mono[0][4:-1], ","):
+        if a == var:
+            if not guard_pos:
+                return False
+        elif a in ("self.sector_length", "self.buffer_length") and a not in assigned:
+            continue
+        else:
+            return False
+    return True
 
 
 # --------------------------------------------------------------------- schemas
@@ -164,6 +205,8 @@ def schema_counter(ctx, fn, cfg, lp, ev):
                     good = "positive-bound"
                 elif need < 0 and (-d).p and all(c > 0 for c in (-d).p.values()) and (-d).atoms() <= bterm.atoms():
                     good = "positive-bound"
+                elif need < 0 and _min_step_positive(-d, var.id, op, bterm, loop):
+                    good = "positive-min"
                 if not good:
                     ln = [getattr(s, "lineno", 0) for _, s, _ in simple_stmts_of(cfg, path)]
                     ok, why = False, (f"`{var.id}` does not move strictly {'up' if need > 0 else 'down'} on the back-edge path through lines "
